@@ -1,12 +1,25 @@
-(** C18: sx interface of the model (decoders, judge, monitor). *)
-From BBS Require Import Common.Sx Common.ListX Auth.Auth.
+(** C18: sx interface of the model (decoders, judge, monitor).
+
+    Input: [(get put fm op names)].  A tree is [(0 id (verdict ...))] (scripted
+    leaf, one verdict per name index), [(1 (member ...))] ('any') or
+    [(2 (prefix ...))] (static instance_name_prefix authorizer; every allowed
+    prefix is the instance name string as a byte list).  [names] is the name
+    alphabet of the case: name index i stands for the instance name string
+    [nth i names], split into components like the code does. *)
+From BBS Require Import Common.Sx Common.ListX Routing.Names Routing.Trie Auth.Auth.
+
+Definition dec_iname (s : sx) : list comp := Names.split (sx_Ns s).
 
 Fixpoint dec_tree (s : sx) : atree :=
   match s with
   | L [A 0; A id; L vs] => Leaf (Z.to_nat id) (map sx_Z vs)
   | L [A 1; L ch] => Any (map dec_tree ch)
+  | L [A 2; L ps] => Prefix (map dec_iname ps)
   | _ => Leaf 0 []
   end.
+
+Definition dec_nm (s : sx) : nat -> list comp :=
+  fun i => dec_iname (nth i (sx_list s) (L [])).
 
 Definition dec_op (s : sx) : aop :=
   match s with
@@ -25,12 +38,15 @@ Definition enc_res (r : aresult) : sx :=
      L (map enc_call (calls r))].
 
 Definition run18 (inp : sx) : sx :=
-  enc_res (authorizing (dec_tree (sx_nth inp 0)) (dec_tree (sx_nth inp 1))
+  enc_res (authorizing (dec_nm (sx_nth inp 4)) (dec_tree (sx_nth inp 0)) (dec_tree (sx_nth inp 1))
                        (dec_tree (sx_nth inp 2)) (dec_op (sx_nth inp 3))).
 
 (** Monitor on implementation observations; uses only the specification
-    [sem], not the operational [authorize]. *)
+    [sem] (for a prefix leaf: [covered], component-wise prefix on lists), not
+    the operational [authorize] nor the trie. *)
 Definition mon18 (inp obs : sx) : list Z :=
+  let nm := dec_nm (sx_nth inp 4) in
+  let sem := sem nm in
   let g := dec_tree (sx_nth inp 0) in
   let p := dec_tree (sx_nth inp 1) in
   let f := dec_tree (sx_nth inp 2) in
@@ -50,11 +66,23 @@ Definition mon18 (inp obs : sx) : list Z :=
   (match o with
    | OPut _ => if fw then (if Z.eqb b 1 then [] else [3]) else (if Z.eqb b 2 then [] else [3])
    | _ => []
-   end).
+   end) ++
+  (* Authorizers made of instance_name_prefix leaves only, judged on the allowed
+     prefixes stated in the input (their union over the tree), without [sem]:
+     4: the backend was contacted although some involved instance name is not
+        covered by any allowed prefix;
+     5: rejected although every involved name is covered, or rejected with a
+        code other than PERMISSION_DENIED. *)
+  (let cov := fun n => covered (all_prefixes t) (nm n) in
+   if static_only t then
+     (if fw && negb (forallb cov ns) then [4] else []) ++
+     (if negb fw && (forallb cov ns || negb (Z.eqb c 7)) then [5] else [])
+   else []).
 
 (** FindMissing iterates a Go map: which failing name's error is returned is
     unspecified, so agreement on [code] is membership. *)
 Definition judge18 (inp obs : sx) : sx :=
+  let sem := sem (dec_nm (sx_nth inp 4)) in
   let m := run18 inp in
   let v := mon18 inp obs in
   let viol := negb (match v with [] => true | _ => false end) in
